@@ -15,7 +15,7 @@ use vmodel::*;
 pub fn spec() -> PropSpec {
     PropSpec {
         id: "C02",
-        rule: "cases: (n, d != 0) pairs. Divisors: mixture of edge shapes (constants, 2^k(+-1), patterned limbs 0/MAX/.., runs of ones, random bit length, uniform, zero-padded), bit length a multiple of 64, normalised top limb MAX with second limb 0/MAX, a single limb (1, 2, 3, 2^k, 2^63, MAX, MAX-small) inside the width, 2^k, 1. Dividends: independent mixture, n = q*d + r with r in {0, 1, d-1, random} and optionally +-1, n < d, values related to d, and the Knuth-overestimate construction (normalised divisor [MAX.. | v0 | v1], one dividend window = (qh*(v1,v0) + rr)*B^(yc-2) + low so that the 3-by-2 estimate is qh and the true digit qh-1; placed above random lower limbs and below an exact multiple of the divisor; both un-shifted by s bits). Every division / remainder form of the type is checked on each pair against BigUint. non-trivial (division cases): the quotient has >= 2 non-zero base-2^64 digits, OR a reference Knuth-D simulation on the normalised operands reports >= 1 digit whose 3-by-2 estimate exceeds the true digit (add-back) or >= 1 digit with the estimate capped at B-1 (u2 == v1), OR (single-limb divisors) a Moeller-Granlund 2-by-1 model reports >= 1 reciprocal correction step, OR the divisor's bit length is = 0 mod 64. non-trivial (rem2k_vartime cases): the reduction removes at least one set bit and keeps at least one, or k >= BITS with n != 0. non-trivial (Limb mul_rem cases): a*b >= 2^64-c and the product needs two limbs or the 2-by-1 model reports a correction. d = 0 cases (checked forms are none) are counted as trivial. surface/* sub-checks repeat the division rule on the same generators for forms, generic routes, limb counts (5, 7, ...) and boxed precisions not reached otherwise; their none-operand (Checked) and Reciprocal::default() totality cases are counted as trivial. distinct by the operand limbs (+ widths, k).",
+        rule: "cases: (n, d != 0) pairs. Divisors: mixture of edge shapes (constants, 2^k(+-1), patterned limbs 0/MAX/.., runs of ones, random bit length, uniform, zero-padded), bit length a multiple of 64, normalised top limb MAX with second limb 0/MAX, a single limb (1, 2, 3, 2^k, 2^63, MAX, MAX-small) inside the width, 2^k, 1. Dividends: independent mixture, n = q*d + r with r in {0, 1, d-1, random} and optionally +-1, n < d, values related to d, and the Knuth-overestimate construction (normalised divisor [MAX.. | v0 | v1], one dividend window = (qh*(v1,v0) + rr)*B^(yc-2) + low so that the 3-by-2 estimate is qh and the true digit qh-1; placed above random lower limbs and below an exact multiple of the divisor; both un-shifted by s bits). Every division / remainder form of the type is checked on each pair against BigUint. non-trivial (division cases): the quotient has >= 2 non-zero base-2^64 digits, OR a reference Knuth-D simulation on the normalised operands reports >= 1 digit whose 3-by-2 estimate exceeds the true digit (add-back) or >= 1 digit with the estimate capped at B-1 (u2 == v1), OR (single-limb divisors) a Moeller-Granlund 2-by-1 model reports >= 1 reciprocal correction step, OR the divisor's bit length is = 0 mod 64. non-trivial (rem2k_vartime cases): the reduction removes at least one set bit and keeps at least one, or k >= BITS with n != 0. non-trivial (Limb mul_rem cases): a*b >= 2^64-c and the product needs two limbs or the 2-by-1 model reports a correction. d = 0 cases (checked forms are none) are counted as trivial. surface/* sub-checks repeat the division rule on the same generators for forms, generic routes, limb counts (5, 7, ...) and boxed precisions not reached otherwise; their none-operand (Checked) and Reciprocal::default() totality cases are counted as trivial. distinct by the operand limbs (+ widths, k). Since seeding round 4: one pair in twelve has a limb tied to an integer literal harvested from the source under test (operand limb, limb sum or limb difference equal to K, K+1, K-1).",
         assumptions: vec![
             "num-bigint division is correct (independent implementation); q and r are computed separately and the identity n = q*d + r, r < d is re-checked".into(),
             "bridging uses from_words/as_words only".into(),
